@@ -182,11 +182,12 @@ EXPLANATION = (
     'munch function), cli_language_spec, source_precedence, language_disparity_iff, invalid_language_iff, unable_to_determine_iff, '
     'encoding_and_variant_iff, poedit_and_absent_iff, '
     'final_language_none_iff, name_correction_sound/complete, almost_equal_equivalence; NoCrash - check_language_error_kinds, '
-    'check_language_nocrash and language_tags_total (file type derived from the name), leaf_error_kinds. OUTSTANDING: nothing of the design list. '
+    'check_language_nocrash and language_tags_total (every path, also under --file-type: no hypothesis since /repo d16b49e), leaf_error_kinds. OUTSTANDING: nothing of the design list. '
     'TEST-LEVEL ONLY: the models of os.path.normpath/basename/splitext, the Unicode tables behind _munch_language_name, and that '
     'Spec.LocaleRe.Matches is what CPython re decides - all tied by the correspondence streams; header parsing into ctx.metadata belongs to C15 '
     '(covered here by the e2e-cli stream on real files). FINDINGS (both fixed in /repo, re-found by this check on the unfixed tree): '
-    "parse_language('pl\\n') accepted (6815428); '/None/' in the path dropped the base-name language when the Language field had unknown codes (06a1780).")
+    "parse_language('pl\\n') accepted (6815428); '/None/' in the path dropped the base-name language when the Language field had unknown codes (06a1780). "
+    "Found by C01: AssertionError for base names '.po', '..po' under --file-type po (d16b49e); the model follows the fix.")
 
 if __name__ == '__main__':
     common.main_wrapper(main)
